@@ -5,6 +5,8 @@ import (
 	"encoding/binary"
 	"errors"
 	"fmt"
+	"io"
+	"strings"
 
 	"github.com/zeebo/errs"
 
@@ -14,7 +16,10 @@ import (
 )
 
 // Msg is the message type of the simulated services: raw bytes.
-type Msg struct{ B []byte }
+type Msg struct {
+	B    []byte
+	Seen int // how many times something was unmarshalled into this object
+}
 
 var errUndecodable = errors.New("sim: undecodable message")
 
@@ -36,6 +41,7 @@ func (rawEnc) Unmarshal(b []byte, m drpc.Message) error {
 	verifsim.Yield(verifsim.ClassApp, "enc.Unmarshal")
 	mm := m.(*Msg)
 	mm.B = append(mm.B[:0:0], b...)
+	mm.Seen++
 	return nil
 }
 
@@ -96,6 +102,10 @@ func (w wrapC) Cause() error  { return w.e }
 // buildErr constructs the handler error described by e.
 func buildErr(e ErrSpec) error {
 	var err error = errors.New(e.Msg)
+	if e.Style == 3 {
+		// a handler passing on an end-of-stream it met somewhere ("...: EOF")
+		err = fmt.Errorf("%s%w", strings.TrimSuffix(e.Msg, "EOF"), io.EOF)
+	}
 	err = drpcerr.WithCode(err, e.Code)
 	for i := 0; i < e.Depth; i++ {
 		switch e.Style {
@@ -103,6 +113,8 @@ func buildErr(e ErrSpec) error {
 			err = wrapU{err}
 		case 1:
 			err = wrapC{err}
+		case 3:
+			err = wrapU{err}
 		default:
 			err = errs.Wrap(err)
 		}
